@@ -29,7 +29,7 @@ def run(tier):
         o = os.path.join(wd, "vec_%s.json" % cfg)
         conform(cfg, ["prims-vectors", vf, o])
         _merge(ck, json.load(open(o)), "" if cfg == "stable" else "[%s] " % cfg)
-    for s in range(40 if thorough else 1):
+    for s in range(600 if thorough else 1):
         o = os.path.join(wd, "sweep.json")
         conform("stable", ["prims-sweep-c12", o, ck.seed + s])
         _merge(ck, json.load(open(o)), "")
